@@ -230,6 +230,7 @@ class Model(object):
         not_nan = np.where(np.logical_not(np.isnan(self.objval[:self.npt()])))[0]
         if len(not_nan) > 0:
             self.kopt = not_nan[np.argmin(self.objval[not_nan])]  # make sure kopt is always the best value we have (ignoring NaNs)
+        self.factorisation_current = False  # interpolation matrix is centred at xopt, which may just have moved
         return
 
     def add_new_point(self, x, rvec, eval_num):
